@@ -201,7 +201,10 @@ class Gen(object):
 # (class, field) -> candidate classes of a union field
 UNIONS = {}
 # (class, field) -> pool of abstract values overriding the kind's pool (list or callable(ver))
-FIELD_POOL = {("ProtectionStorageMasks", "protection_storage_masks"): [num(x) for x in (1, 2, 3, 0x200, 0x3FFF)]}
+FIELD_POOL = {("ProtectionStorageMasks", "protection_storage_masks"): [num(x) for x in (1, 2, 3, 0x200, 0x3FFF)],
+              # KMIP 2.0 attribute references: every attribute name the library knows, none sampled away
+              ("GetAttributesRequestPayload", "attribute_references"): lambda ver: [num(x) for x in B.attribute_reference_tags()],
+              ("GetAttributeListResponsePayload", "attribute_references"): lambda ver: [num(x) for x in B.attribute_reference_tags()]}
 # class -> hook(gen, val, ver, depth) -> val: consistency between fields
 HOOKS = {}
 
@@ -279,7 +282,7 @@ def cases(cls, ver, rng, nrandom=6, boundary=True):
             if f["k"] in B.PRIM_KINDS:
                 p = FIELD_POOL.get((cls, f["n"]))
                 vals = (p(ver) if callable(p) else p) if p is not None else pool(f["k"], f["of"])
-                if f["k"] == "enum" and len(vals) > 6:
+                if f["k"] == "enum" and len(vals) > 6 and p is None:
                     vals = rng.sample(vals, 6)
                 for i, bv in enumerate(vals):
                     fixed = {f["n"]: [bv] if f["c"] in "*+" else bv}
